@@ -39,7 +39,8 @@ var (
 func c16Setup() {
 	c16Once.Do(func() {
 		c16Names = syntax.VerifCategoryNames()
-		c16IDs = map[string]int64{syntax.SpaceCategoryText: 0, syntax.WordCategoryText: 1, "Ll": 2, "Lu": 3, "Lt": 4, "Nd": 5}
+		c16IDs = map[string]int64{syntax.SpaceCategoryText: 0, syntax.WordCategoryText: 1, "Ll": 2, "Lu": 3, "Lt": 4, "Nd": 5,
+			"Lowercase_Letter": 2, "Uppercase_Letter": 3, "Titlecase_Letter": 4} // aliases of the same tables (addCategory compares tables)
 		for i, n := range c16Names {
 			if _, ok := c16IDs[n]; !ok {
 				c16IDs[n] = int64(16 + i)
@@ -145,10 +146,23 @@ func encCls(cs *syntax.CharSet, used map[string]bool) []int64 {
 	for _, r := range ranges {
 		out = append(out, int64(r.First), int64(r.Last))
 	}
-	out = append(out, int64(len(cats)))
+	// canonical form: a second spelling of a table already listed with the same polarity (Lu and Uppercase_Letter)
+	// is the same member; addCategories only keeps it because its duplicate test compares names
+	var enc [][2]int64
 	for _, c := range cats {
 		used[c.Cat] = true
-		out = append(out, b2i(c.Negate), c16CatID(c.Cat))
+		e := [2]int64{b2i(c.Negate), c16CatID(c.Cat)}
+		dup := false
+		for _, x := range enc {
+			dup = dup || x == e
+		}
+		if !dup {
+			enc = append(enc, e)
+		}
+	}
+	out = append(out, int64(len(enc)))
+	for _, e := range enc {
+		out = append(out, e[0], e[1])
 	}
 	if sub != nil {
 		out = append(out, encCls(sub, used)...)
@@ -236,7 +250,7 @@ var c16EcmaSpace = [][2]rune{{9, 13}, {32, 32}, {160, 160}, {0x1680, 0x1680}, {0
 // category / script / property names the generator uses with \p{..}
 var c16PropNames = []string{"L", "Lu", "Ll", "Lt", "Lm", "Lo", "N", "Nd", "Nl", "No", "P", "Pd", "Ps", "S", "Sm", "Sc", "Z", "Zs", "C", "Cc", "Cs", "M", "Mn",
 	"Lu", "Ll", "L", "Greek", "Latin", "Cyrillic", "Han", "Arabic", "Hebrew", "Common", "Inherited", "Armenian",
-	"White_Space", "Hex_Digit", "ASCII_Hex_Digit", "Dash", "Uppercase_Letter", "LC", "Letter", "punct", "Word_Break=ALetter", "Sentence_Break=Lower"}
+	"White_Space", "Hex_Digit", "ASCII_Hex_Digit", "Dash", "Uppercase_Letter", "Lowercase_Letter", "Titlecase_Letter", "LC", "Letter", "punct", "Word_Break=ALetter", "Sentence_Break=Lower"}
 
 type c16Mode struct {
 	name string
@@ -382,7 +396,7 @@ func (s *c16Syn) facts(m c16Mode, f *c16Facts, depth int) {
 		case c16Prop:
 			f.hasProp = true
 			f.cats[it.name] = true
-			if m.ci && (it.name == "Ll" || it.name == "Lu" || it.name == "Lt") {
+			if id := c16CatID(it.name); m.ci && id >= 2 && id <= 4 {
 				f.cats["Ll"], f.cats["Lu"], f.cats["Lt"] = true, true, true
 				if it.neg {
 					f.ciNegCase = true
@@ -501,8 +515,15 @@ func c16GenSyn(rg *Rng, m c16Mode, depth int) *c16Syn {
 			s.items = append(s.items, c16Item{kind: c16Digit + rg.Intn(3), neg: neg})
 		case x < 92 && !m.ecma: // \p{..}
 			name := Pick(rg, c16PropNames)
+			// the long aliases name the same tables as Ll/Lu/Lt and share their model ids; a class level keeps one
+			// spelling per table (two spellings would only differ in the duplicate-name check of addCategories)
+			for _, it := range s.items {
+				if it.kind == c16Prop && it.name != name && c16CatID(it.name) == c16CatID(name) {
+					name = it.name
+				}
+			}
 			neg := rg.Chance(35)
-			if m.ci && neg && (name == "Ll" || name == "Lu" || name == "Lt") && !rg.Chance(15) {
+			if m.ci && neg && c16CatID(name) >= 2 && c16CatID(name) <= 4 && !rg.Chance(15) {
 				neg = false // keep the density of the known finding low
 			}
 			s.items = append(s.items, c16Item{kind: c16Prop, neg: neg, name: name})
@@ -910,6 +931,10 @@ func c16Corpus() []c16Witness {
 		{&c16Syn{items: []c16Item{ch('k'), ch('S')}}, ci},
 		{&c16Syn{neg: true, items: []c16Item{rg('j', 'l')}}, ci},
 		{&c16Syn{items: []c16Item{prop(false, "Lu")}}, ci},
+		// 858f498: the long aliases were not widened under IgnoreCase ((?i)\p{Uppercase_Letter} did not match "a")
+		{&c16Syn{items: []c16Item{prop(false, "Uppercase_Letter")}}, ci},
+		{&c16Syn{items: []c16Item{prop(false, "Lowercase_Letter"), ch('1')}}, ci},
+		{&c16Syn{items: []c16Item{prop(false, "Titlecase_Letter")}, sub: &c16Syn{items: []c16Item{prop(false, "Lu")}}}, ci},
 		{&c16Syn{items: []c16Item{prop(false, "Ll"), ch('1')}, sub: &c16Syn{items: []c16Item{rg('A', 'F')}}}, ci},
 	}
 }
